@@ -210,6 +210,8 @@ class Judge:
                 res.violation("run reported success but nothing was written to the output path", case, key="success-no-write:" + key, outcome=out)
             if o["file_after"] != pre:
                 res.violation("an existing output file was not left unchanged by an unsuccessful run", case, key="clobbered:" + key, outcome=out)
+        if o.get("stray_output"):
+            res.violation("something was written to the configured output path although the command line names another one", case, key="stray-output:" + key, outcome=out)
         if "exit" in o and ((o["exit"] == 0) != success or (not success and o["exit"] == 0)):
             res.violation("exit status 0 on an unsuccessful run (or non-zero on success)", case, key="exit:" + key, outcome=out, exit=o["exit"])
         if expect_no_sign and o["sign_ops"]:
@@ -548,7 +550,7 @@ def collision_stream(j: Judge, r: Any, work: Path, tier: str) -> None:
             o = R.run_ceremony(sc, work, answer="Yes")
             case = {"stream": "gate", "n": n, "gate": f"collision:zsk-identifier-is-label-of-{role}:{pos_name}-bundle"}
             # two different keys under one identifier in the response bundle: no relying party can attribute the signature
-            j.observe(o, case, None, sc=sc, expect_success=False, model_may_decline=True)
+            j.observe(o, case, None, sc=sc, expect_success=False, model_may_decline=(role == "signing-ksk"))
             res.bump(f"collision:{role}:{pos_name}")
     # the colliding name belongs to a KSK the schema does not use at all: nothing collides, the ceremony is an ordinary one
     sc = two_ksk_scenario(n, lambda slot: {"publish": ["ka"], "sign": ["ka"], "revoke": []}, layout=[[0, 1, 2], [1], [1]], zsks=[("Z0", z[0], 8), ("Z1", z[1], 8), ("Kkb", z[2], 8)])
@@ -560,7 +562,7 @@ def collision_stream(j: Judge, r: Any, work: Path, tier: str) -> None:
         layout[p] = layout[p] + [2]
         sc = two_ksk_scenario(n, schema, layout=layout, zsks=[("Z0", z[0], 8), ("Z1", z[1], 8), ("Z0", z[2], 8)])
         o = R.run_ceremony(sc, work, answer="Yes")
-        j.observe(o, {"stream": "gate", "n": n, "gate": f"collision:one-identifier-two-zsks-across-bundles:{pos_name}"}, None, sc=sc, model_may_decline=True)
+        j.observe(o, {"stream": "gate", "n": n, "gate": f"collision:one-identifier-two-zsks-across-bundles:{pos_name}"}, None, sc=sc)
         res.bump("collision:across-bundles:" + ("accepted" if o["written"] else "refused"))
     # … and in ONE bundle: the request itself is ambiguous and must be refused before anything is signed
     for pos_name, p in where.items():
@@ -568,7 +570,7 @@ def collision_stream(j: Judge, r: Any, work: Path, tier: str) -> None:
         layout[p] = sorted(set(layout[p] + [1, 2]))
         sc = two_ksk_scenario(n, schema, layout=layout, zsks=[("Z0", z[0], 8), ("Z1", z[1], 8), ("Z1", z[2], 8)])
         o = R.run_ceremony(sc, work, answer="Yes")
-        j.observe(o, {"stream": "gate", "n": n, "gate": f"collision:one-identifier-two-zsks-in-one-bundle:{pos_name}"}, None, sc=sc, expect_success=False, expect_no_sign=True, model_may_decline=True)
+        j.observe(o, {"stream": "gate", "n": n, "gate": f"collision:one-identifier-two-zsks-in-one-bundle:{pos_name}"}, None, sc=sc, expect_success=False, expect_no_sign=True)
         res.bump("collision:within-bundle:" + pos_name)
 
 
